@@ -824,4 +824,313 @@ theorem evalArgs_answer {cfg : EvCfg} {disp : List Str → Dispatch} {beh : Str 
         refine ⟨ig, ?_, ?_⟩
         · simp [valuesO, refCallsO, ha, List.append_assoc] <;> rfl
         · simpa [valuesO, ha] using h2
+
+/-! ### the disabled-commands store: what a history of add / remove leaves behind -/
+
+theorem lookupK_setK (d : Disabled) (k k' : Str) (v : Option (List Str)) :
+    lookupK (setK d k v) k' = if k' = k then some v else lookupK d k' := by
+  induction d with
+  | nil =>
+    by_cases h : k' = k
+    · subst h; simp [setK, lookupK]
+    · have : ¬ k = k' := fun e => h e.symm
+      simp [setK, lookupK, h, this]
+  | cons e d ih =>
+    obtain ⟨ke, ve⟩ := e
+    by_cases hk : ke = k
+    · subst hk
+      by_cases h : k' = ke
+      · subst h; simp [setK, lookupK]
+      · have : ¬ ke = k' := fun e => h e.symm
+        simp [setK, lookupK, h, this]
+    · simp only [setK, if_neg hk]
+      by_cases h2 : ke = k'
+      · subst h2
+        have : ¬ ke = k := hk
+        simp [lookupK, this]
+      · have e1 : lookupK ((ke, ve) :: setK d k v) k' = lookupK (setK d k v) k' := by simp [lookupK, h2]
+        have e2 : lookupK ((ke, ve) :: d) k' = lookupK d k' := by simp [lookupK, h2]
+        rw [e1, e2, ih]
+
+theorem lookupK_delK (d : Disabled) (k k' : Str) :
+    lookupK (delK d k) k' = if k' = k then none else lookupK d k' := by
+  induction d with
+  | nil => simp [delK, lookupK]
+  | cons e d ih =>
+    obtain ⟨ke, ve⟩ := e
+    simp only [delK] at ih ⊢
+    by_cases hk : ke = k
+    · subst hk
+      by_cases h : k' = ke
+      · subst h; simpa [lookupK] using ih
+      · have : ¬ ke = k' := fun e => h e.symm
+        simpa [lookupK, h, this] using ih
+    · by_cases h2 : ke = k'
+      · subst h2; simp [lookupK, hk]
+      · simp only [List.filter, hk, ne_eq, not_false_eq_true, decide_true]
+        have e1 : ∀ l, lookupK ((ke, ve) :: l) k' = lookupK l k' := by intro l; simp [lookupK, h2]
+        rw [e1, e1, ih]
+
+/-- `isDisabled` read off the store entry of the canonical command name -/
+def disabledK (d : Disabled) (k p : Str) : Bool :=
+  match lookupK d k with
+  | none => false
+  | some none => true
+  | some (some ps) => ps.contains p
+
+theorem isDisabled_eq (d : Disabled) (command plugin : Str) :
+    isDisabled d command plugin = disabledK d (canonicalName command) (canonicalName plugin) := by
+  unfold isDisabled disabledK lookupK
+  cases d.find? (fun e => e.1 = canonicalName command) with
+  | none => rfl
+  | some e => obtain ⟨_, v⟩ := e; cases v <;> rfl
+
+/-- operations on canonical names: `add(c)`, `add(c, p)`, `remove(c)`, `remove(c, p)`; a KeyError leaves the store as it is -/
+inductive SOp where
+  | disableAll (c : Str) | disableFor (p c : Str) | enableAll (c : Str) | enableFor (p c : Str)
+
+def stepK (d : Disabled) : SOp → Disabled
+  | .disableAll c => setK d c none
+  | .disableFor p c =>
+    match lookupK d c with
+    | none => setK d c (some [p])
+    | some none => d
+    | some (some ps) => setK d c (some (if ps.contains p then ps else ps ++ [p]))
+  | .enableAll c => if (lookupK d c).isSome then delK d c else d
+  | .enableFor p c =>
+    match lookupK d c with
+    | none => d
+    | some none => d
+    | some (some ps) => if ps.contains p then setK d c (some (ps.filter fun q => q ≠ p)) else d
+
+/-- what the history (most recent operation first) says about plugin `p` and command `c`:
+the last `disable c` / `enable c` settles it for every plugin (`enable c` also erases every per-plugin
+entry); after an `enable c` (or from the start) the last operation about exactly `(p, c)` settles it;
+while `c` is disabled everywhere the per-plugin operations change nothing -/
+def says (p c : Str) : List SOp → Bool
+  | [] => false
+  | .disableAll c' :: rest => if c' = c then true else says p c rest
+  | .enableAll c' :: rest => if c' = c then false else says p c rest
+  | .disableFor p' c' :: rest => if c' = c ∧ p' = p then true else says p c rest
+  | .enableFor p' c' :: rest => if c' = c ∧ p' = p then globally c rest else says p c rest
+where
+  /-- `c` is disabled everywhere: the last global operation about it is a disable -/
+  globally (c : Str) : List SOp → Bool
+    | [] => false
+    | .disableAll c' :: rest => if c' = c then true else globally c rest
+    | .enableAll c' :: rest => if c' = c then false else globally c rest
+    | _ :: rest => globally c rest
+
+theorem contains_filter_ne (ps : List Str) (p q : Str) :
+    (ps.filter fun x => x ≠ p).contains q = (ps.contains q && q ≠ p) := by
+  induction ps with
+  | nil => simp
+  | cons a ps ih =>
+    by_cases h : a = p
+    · subst h
+      by_cases hq : q = a
+      · subst hq; simp [List.filter, ih]
+      · have : ¬ a = q := fun e => hq e.symm
+        simp [List.filter, ih, hq, this]
+    · by_cases hq : q = a
+      · subst hq; simp [List.filter, h]
+      · simp [List.filter, h, ih, hq]
+
+/-- one step: the entry of `c` after an operation, in terms of the entry before -/
+theorem disabledK_step (d : Disabled) (op : SOp) (p c : Str) :
+    disabledK (stepK d op) c p =
+      match op with
+      | .disableAll c' => if c = c' then true else disabledK d c p
+      | .enableAll c' => if c = c' then false else disabledK d c p
+      | .disableFor p' c' => if c = c' ∧ p = p' then true else disabledK d c p
+      | .enableFor p' c' => if c = c' ∧ p = p' then (lookupK d c == some none) else disabledK d c p := by
+  cases op with
+  | disableAll c' =>
+    simp only [stepK, disabledK, lookupK_setK]
+    by_cases h : c = c' <;> simp [h]
+  | enableAll c' =>
+    simp only [stepK]
+    by_cases hs : (lookupK d c').isSome
+    · simp only [hs, if_true, disabledK, lookupK_delK]
+      by_cases h : c = c' <;> simp [h]
+    · simp only [hs, Bool.false_eq_true, if_false]
+      by_cases h : c = c'
+      · subst h
+        have : lookupK d c = none := by simpa using hs
+        simp [disabledK, this]
+      · simp [h]
+  | disableFor p' c' =>
+    simp only [stepK]
+    by_cases h : c = c'
+    · subst h
+      cases hl : lookupK d c with
+      | none =>
+        simp only [disabledK, lookupK_setK, hl, if_true]
+        by_cases hp : p = p' <;> simp [hp]
+      | some v =>
+        cases v with
+        | none => simp [disabledK, hl]
+        | some ps =>
+          simp only [disabledK, lookupK_setK, hl, if_true]
+          by_cases hp : p = p'
+          · subst hp
+            by_cases hc : p ∈ ps <;> simp [hc]
+          · by_cases hc : p' ∈ ps <;> simp [hc, hp]
+    · cases hl : lookupK d c' with
+      | none => simp [disabledK, lookupK_setK, h]
+      | some v => cases v <;> simp [disabledK, lookupK_setK, h]
+  | enableFor p' c' =>
+    simp only [stepK]
+    by_cases h : c = c'
+    · subst h
+      cases hl : lookupK d c with
+      | none => simp [disabledK, hl]
+      | some v =>
+        cases v with
+        | none => simp [disabledK, hl]
+        | some ps =>
+          by_cases hc : ps.contains p'
+          · simp only [hc, if_true, disabledK, lookupK_setK, hl, contains_filter_ne]
+            by_cases hp : p = p'
+            · subst hp; simp
+            · simp [hp]
+          · simp only [hc, Bool.false_eq_true, if_false, disabledK, hl]
+            by_cases hp : p = p'
+            · subst hp; simpa using hc
+            · simp [hp]
+    · cases hl : lookupK d c' with
+      | none => simp [disabledK, h]
+      | some v =>
+        cases v with
+        | none => simp [disabledK, h]
+        | some ps =>
+          by_cases hc : ps.contains p' = true
+          · simp only [hc, if_true, disabledK, lookupK_setK, h, if_false]
+            simp [h]
+          · simp only [hc, Bool.false_eq_true, if_false, disabledK]
+            simp [h]
+
+def isGlobalK (d : Disabled) (c : Str) : Bool := lookupK d c == some none
+
+theorem isGlobalK_step (d : Disabled) (op : SOp) (c : Str) :
+    isGlobalK (stepK d op) c =
+      match op with
+      | .disableAll c' => if c = c' then true else isGlobalK d c
+      | .enableAll c' => if c = c' then false else isGlobalK d c
+      | .disableFor _ _ => isGlobalK d c
+      | .enableFor _ _ => isGlobalK d c := by
+  cases op with
+  | disableAll c' =>
+    simp only [stepK, isGlobalK, lookupK_setK]
+    by_cases h : c = c' <;> simp [h]
+  | enableAll c' =>
+    simp only [stepK]
+    by_cases hs : (lookupK d c').isSome
+    · simp only [hs, if_true, isGlobalK, lookupK_delK]
+      by_cases h : c = c' <;> simp [h]
+    · simp only [hs, Bool.false_eq_true, if_false]
+      by_cases h : c = c'
+      · subst h
+        have : lookupK d c = none := by simpa using hs
+        simp [isGlobalK, this]
+      · simp [h]
+  | disableFor p' c' =>
+    simp only [stepK]
+    cases hl : lookupK d c' with
+    | none =>
+      simp only [isGlobalK, lookupK_setK]
+      by_cases h : c = c'
+      · subst h; simp [hl]
+      · simp [h]
+    | some v =>
+      cases v with
+      | none => rfl
+      | some ps =>
+        simp only [isGlobalK, lookupK_setK]
+        by_cases h : c = c'
+        · subst h; simp [hl]
+        · simp [h]
+  | enableFor p' c' =>
+    simp only [stepK]
+    cases hl : lookupK d c' with
+    | none => rfl
+    | some v =>
+      cases v with
+      | none => rfl
+      | some ps =>
+        by_cases hc : ps.contains p' = true
+        · simp only [hc, if_true, isGlobalK, lookupK_setK]
+          by_cases h : c = c'
+          · subst h; simp [hl]
+          · simp [h]
+        · simp only [hc, Bool.false_eq_true, if_false]
+
+/-- the store after a history of operations (most recent first), starting from the empty store -/
+def runK : List SOp → Disabled
+  | [] => []
+  | op :: rest => stepK (runK rest) op
+
+theorem isGlobalK_run (c : Str) : ∀ h : List SOp, isGlobalK (runK h) c = says.globally c h
+  | [] => rfl
+  | op :: rest => by
+    have ih := isGlobalK_run c rest
+    rw [runK, isGlobalK_step]
+    cases op with
+    | disableAll c' => simp only [says.globally, ih]; by_cases h : c = c' <;> simp [h, eq_comm]
+    | enableAll c' => simp only [says.globally, ih]; by_cases h : c = c' <;> simp [h, eq_comm]
+    | disableFor p' c' => simp only [says.globally, ih]
+    | enableFor p' c' => simp only [says.globally, ih]
+
+theorem disabledK_run (p c : Str) : ∀ h : List SOp, disabledK (runK h) c p = says p c h
+  | [] => rfl
+  | op :: rest => by
+    have ih := disabledK_run p c rest
+    rw [runK, disabledK_step]
+    cases op with
+    | disableAll c' => simp only [says, ih]; by_cases h : c = c' <;> simp [h, eq_comm]
+    | enableAll c' => simp only [says, ih]; by_cases h : c = c' <;> simp [h, eq_comm]
+    | disableFor p' c' =>
+      simp only [says, ih]
+      by_cases h : c = c' ∧ p = p'
+      · obtain ⟨rfl, rfl⟩ := h; simp
+      · have : ¬ (c' = c ∧ p' = p) := fun ⟨a, b⟩ => h ⟨a.symm, b.symm⟩
+        simp [h, this]
+    | enableFor p' c' =>
+      simp only [says, ih]
+      by_cases h : c = c' ∧ p = p'
+      · obtain ⟨rfl, rfl⟩ := h
+        simp only [and_self, if_true]
+        exact isGlobalK_run c rest
+      · have : ¬ (c' = c ∧ p' = p) := fun ⟨a, b⟩ => h ⟨a.symm, b.symm⟩
+        simp [h, this]
+
+/-- `DisabledCommands.add` / `.remove` are these steps on the canonical names (a KeyError changes nothing) -/
+theorem add_eq_step (d : Disabled) (command : Str) (plugin : Option Str) :
+    d.add command plugin = stepK d (match plugin with
+      | none => .disableAll (canonicalName command)
+      | some p => .disableFor (canonicalName p) (canonicalName command)) := by
+  cases plugin with
+  | none => rfl
+  | some p =>
+    simp only [Disabled.add, stepK]
+    cases lookupK d (canonicalName command) with
+    | none => rfl
+    | some v => cases v <;> rfl
+
+theorem remove_eq_step (d : Disabled) (command : Str) (plugin : Option Str) :
+    (d.remove command plugin).getD d = stepK d (match plugin with
+      | none => .enableAll (canonicalName command)
+      | some p => .enableFor (canonicalName p) (canonicalName command)) := by
+  cases plugin with
+  | none =>
+    simp only [Disabled.remove, stepK]
+    split <;> simp
+  | some p =>
+    simp only [Disabled.remove, stepK]
+    cases lookupK d (canonicalName command) with
+    | none => rfl
+    | some v =>
+      cases v with
+      | none => rfl
+      | some ps => simp only; split <;> simp
 end C14
